@@ -40,7 +40,7 @@ import (
 	"testing"
 	"time"
 
-	"github.com/theparanoids/ysshra/agent/utils"
+	"github.com/theparanoids/ysshra/attestation/yubiattest"
 	"github.com/theparanoids/ysshra/verifh"
 	"golang.org/x/crypto/ssh"
 	"golang.org/x/crypto/ssh/agent"
@@ -393,37 +393,191 @@ func (p *zvwRPair) close() {
 // concrete values
 
 var zvwRCertPool []*x509.Certificate
+var zvwRCertTags []string // per certificate: how it was built, and "/std" or "/lenient-only" (what crypto/x509 says about it)
 var zvwRCertOnce sync.Once
 
+// zvwRebuildCert re-encodes a certificate after editing the fields of its TBSCertificate (version, serial, signature
+// algorithm, issuer, validity, subject, SubjectPublicKeyInfo, extensions) and / or the outer signature algorithm.
+// The signature is left as it is: parsers do not verify it.
+func zvwRebuildCert(der []byte, edit func(tbs []asn1.RawValue, outerAlg *asn1.RawValue) []asn1.RawValue) []byte {
+	var outer struct {
+		TBS    asn1.RawValue
+		SigAlg asn1.RawValue
+		Sig    asn1.BitString
+	}
+	if _, err := asn1.Unmarshal(der, &outer); err != nil {
+		return nil
+	}
+	var fields []asn1.RawValue
+	if _, err := asn1.Unmarshal(outer.TBS.FullBytes, &fields); err != nil {
+		return nil
+	}
+	fields = edit(fields, &outer.SigAlg)
+	if fields == nil {
+		return nil
+	}
+	for i := range fields { // re-marshal from the full encoding of every field
+		if fields[i].FullBytes == nil {
+			b, err := asn1.Marshal(fields[i])
+			if err != nil {
+				return nil
+			}
+			fields[i] = asn1.RawValue{FullBytes: b}
+		}
+	}
+	tbs, err := asn1.Marshal(fields)
+	if err != nil {
+		return nil
+	}
+	outer.TBS = asn1.RawValue{FullBytes: tbs}
+	if outer.SigAlg.FullBytes == nil {
+		b, err := asn1.Marshal(outer.SigAlg)
+		if err != nil {
+			return nil
+		}
+		outer.SigAlg = asn1.RawValue{FullBytes: b}
+	}
+	out, err := asn1.Marshal(outer)
+	if err != nil {
+		return nil
+	}
+	return out
+}
+
+type zvwAlgID struct {
+	Algorithm  asn1.ObjectIdentifier
+	Parameters asn1.RawValue `asn1:"optional"`
+}
+
+// zvwX509Pool: slot certificates a served agent can hold = everything the repository's lenient certificate parser
+// (attestation/yubiattest, written for old YubiKey firmware) reads back byte-identically: standard certificates of
+// several key types and sizes, and hand-re-encoded ones with the deviations old firmware / old tools produce.
 func zvwX509Pool() []*x509.Certificate {
 	zvwRCertOnce.Do(func() {
 		ek, _ := ecdsa.GenerateKey(elliptic.P256(), rand.Reader)
 		ek3, _ := ecdsa.GenerateKey(elliptic.P384(), rand.Reader)
 		rk, _ := rsa.GenerateKey(rand.Reader, 2048)
-		mk := func(pub, priv interface{}, pad int, cn string) {
-			tpl := &x509.Certificate{SerialNumber: big.NewInt(int64(1000 + pad)), Subject: pkix.Name{CommonName: cn, Organization: []string{"verif"}},
-				NotBefore: time.Now().Add(-time.Hour), NotAfter: time.Now().Add(24 * time.Hour)}
-			if pad > 0 {
-				v, _ := asn1.Marshal(bytes.Repeat([]byte{0x5a}, pad))
-				tpl.ExtraExtensions = []pkix.Extension{{Id: asn1.ObjectIdentifier{1, 3, 6, 1, 4, 1, 41482, 3, 99}, Value: v}}
-			}
-			der, err := x509.CreateCertificate(rand.Reader, tpl, tpl, pub, priv)
-			if err != nil {
+		add := func(der []byte, tag string) {
+			if der == nil {
 				return
 			}
-			// zvwOnly certificates the repository's own parser reads back byte-identically are used
-			c, err := utils.ParsePEMCertificate(pem.EncodeToMemory(&pem.Block{Type: "CERTIFICATE", Bytes: der}))
+			c, err := yubiattest.ParseCertificate(der)
 			if err != nil || !bytes.Equal(c.Raw, der) {
 				return
 			}
+			if _, err := x509.ParseCertificate(der); err == nil {
+				tag += "/std"
+			} else {
+				tag += "/lenient-only"
+			}
 			zvwRCertPool = append(zvwRCertPool, c)
+			zvwRCertTags = append(zvwRCertTags, tag)
 		}
-		mk(&ek.PublicKey, ek, 0, "slot 9a")
+		mk := func(pub, priv interface{}, pad int, cn string) []byte {
+			tpl := &x509.Certificate{SerialNumber: big.NewInt(int64(1000 + pad)), Subject: pkix.Name{CommonName: cn, Organization: []string{"verif"}},
+				NotBefore: time.Now().Add(-time.Hour), NotAfter: time.Now().Add(24 * time.Hour)}
+			v, _ := asn1.Marshal(bytes.Repeat([]byte{0x5a}, pad+1))
+			tpl.ExtraExtensions = []pkix.Extension{{Id: asn1.ObjectIdentifier{1, 3, 6, 1, 4, 1, 41482, 3, 99}, Value: v}}
+			der, err := x509.CreateCertificate(rand.Reader, tpl, tpl, pub, priv)
+			if err != nil {
+				return nil
+			}
+			add(der, cn)
+			return der
+		}
+		ecDer := mk(&ek.PublicKey, ek, 0, "slot 9a")
 		mk(&ek.PublicKey, ek, 700, "attestation ü")
 		mk(&ek3.PublicKey, ek3, 3000, "p384")
-		mk(&rk.PublicKey, rk, 0, "rsa")
+		rsaDer := mk(&rk.PublicKey, rk, 0, "rsa")
 		mk(&rk.PublicKey, rk, 9000, "rsa-large")
 		mk(&ek.PublicKey, ek, 60000, "huge")
+		if ecDer == nil || rsaDer == nil {
+			return
+		}
+		noParams := func(f asn1.RawValue) asn1.RawValue { // an AlgorithmIdentifier without its parameters
+			var a zvwAlgID
+			if _, err := asn1.Unmarshal(f.FullBytes, &a); err != nil {
+				return f
+			}
+			b, _ := asn1.Marshal(zvwAlgID{Algorithm: a.Algorithm})
+			return asn1.RawValue{FullBytes: b}
+		}
+		// RSA SubjectPublicKeyInfo whose AlgorithmIdentifier omits the NULL parameters (YubiKey firmware before 4.3.3)
+		add(zvwRebuildCert(rsaDer, func(t []asn1.RawValue, _ *asn1.RawValue) []asn1.RawValue {
+			var spki struct {
+				Algorithm zvwAlgID
+				PublicKey asn1.BitString
+			}
+			if _, err := asn1.Unmarshal(t[6].FullBytes, &spki); err != nil {
+				return nil
+			}
+			spki.Algorithm.Parameters = asn1.RawValue{}
+			b, _ := asn1.Marshal(spki)
+			t[6] = asn1.RawValue{FullBytes: b}
+			return t
+		}), "rsa-spki-without-null")
+		// signature AlgorithmIdentifier (inner and outer) without the NULL parameters
+		add(zvwRebuildCert(rsaDer, func(t []asn1.RawValue, o *asn1.RawValue) []asn1.RawValue {
+			t[2] = noParams(t[2])
+			*o = noParams(*o)
+			return t
+		}), "rsa-sigalg-without-null")
+		for _, base := range []struct {
+			der []byte
+			n   string
+		}{{ecDer, "ec"}, {rsaDer, "rsa"}} {
+			base := base
+			// negative serial number
+			add(zvwRebuildCert(base.der, func(t []asn1.RawValue, _ *asn1.RawValue) []asn1.RawValue {
+				t[1] = asn1.RawValue{Class: 0, Tag: 2, Bytes: []byte{0x85, 0x01, 0x02}}
+				return t
+			}), base.n+"-serial-negative")
+			// serial number of 21 octets
+			add(zvwRebuildCert(base.der, func(t []asn1.RawValue, _ *asn1.RawValue) []asn1.RawValue {
+				t[1] = asn1.RawValue{Class: 0, Tag: 2, Bytes: append([]byte{0x01}, bytes.Repeat([]byte{0x77}, 20)...)}
+				return t
+			}), base.n+"-serial-21-octets")
+			// serial number zero
+			add(zvwRebuildCert(base.der, func(t []asn1.RawValue, _ *asn1.RawValue) []asn1.RawValue {
+				t[1] = asn1.RawValue{Class: 0, Tag: 2, Bytes: []byte{0}}
+				return t
+			}), base.n+"-serial-zero")
+			// the same extension twice
+			add(zvwRebuildCert(base.der, func(t []asn1.RawValue, _ *asn1.RawValue) []asn1.RawValue {
+				last := t[len(t)-1]
+				if last.Class != 2 || last.Tag != 3 {
+					return nil
+				}
+				var exts []asn1.RawValue
+				if _, err := asn1.Unmarshal(last.Bytes, &exts); err != nil || len(exts) == 0 {
+					return nil
+				}
+				exts = append(exts, exts[len(exts)-1])
+				b, _ := asn1.Marshal(exts)
+				t[len(t)-1] = asn1.RawValue{Class: 2, Tag: 3, IsCompound: true, Bytes: b}
+				return t
+			}), base.n+"-extension-twice")
+			// version 1 encoding (no version field) that still carries extensions
+			add(zvwRebuildCert(base.der, func(t []asn1.RawValue, _ *asn1.RawValue) []asn1.RawValue {
+				if t[0].Class != 2 || t[0].Tag != 0 {
+					return nil
+				}
+				return t[1:]
+			}), base.n+"-v1-with-extensions")
+			// a critical extension nobody knows
+			add(zvwRebuildCert(base.der, func(t []asn1.RawValue, _ *asn1.RawValue) []asn1.RawValue {
+				last := t[len(t)-1]
+				var exts []asn1.RawValue
+				if _, err := asn1.Unmarshal(last.Bytes, &exts); err != nil {
+					return nil
+				}
+				e, _ := asn1.Marshal(pkix.Extension{Id: asn1.ObjectIdentifier{1, 3, 6, 1, 4, 1, 41482, 3, 77}, Critical: true, Value: []byte{4, 1, 1}})
+				exts = append(exts, asn1.RawValue{FullBytes: e})
+				b, _ := asn1.Marshal(exts)
+				t[len(t)-1] = asn1.RawValue{Class: 2, Tag: 3, IsCompound: true, Bytes: b}
+				return t
+			}), base.n+"-unknown-critical-extension")
+		}
 	})
 	return zvwRCertPool
 }
@@ -794,14 +948,22 @@ func (c *zvwRCtx) recOp(op string, a map[string]string) (lab zvwRLabel, vr strin
 			if c.kind >= 4 && c.kind-4 < len(zvwBoundSizes) {
 				sc.err = errors.New(zvwSizedText(r, zvwBoundSizes[c.kind-4]-8)) // 4 bytes empty certificate + 4 bytes length in front
 			}
-			if shape == "cert" || shape == "both" {
-				sc.cert = zvwX509Pool()[r.Intn(len(zvwX509Pool()))]
+			ctag := ""
+			if k := c.kind - 4 - len(zvwBoundSizes); k >= 0 {
+				// exported cases: then every certificate class a served agent can hold
+				shape, fail = "cert", false
+				sc.err = nil
+				sc.cert, ctag = zvwX509Pool()[k%len(zvwX509Pool())], zvwRCertTags[k%len(zvwX509Pool())]
+				lab.Shape = ""
+			} else if shape == "cert" || shape == "both" {
+				i := r.Intn(len(zvwX509Pool()))
+				sc.cert, ctag = zvwX509Pool()[i], zvwRCertTags[i]
 			}
 			if shape == "both" || shape == "neither" {
 				lab.Shape = shape
 			}
 			c.rec.set(sc)
-			vr = shape + "-slot-" + hex.EncodeToString([]byte(slot))
+			vr = shape + "-" + ctag + "-slot-" + hex.EncodeToString([]byte(slot))
 			var crt *x509.Certificate
 			if op == "readslot" {
 				crt, cerr = cl.ReadSlot(slot)
@@ -1041,7 +1203,7 @@ func zvwToolListSlots(env *zvwWEnv, td *zvwRToolDir, out string, exit int, remot
 }
 
 // zvwToolCertOp runs ReadSlot / AttestSlot with the fake tool, directly and through the client.
-func zvwToolCertOp(env *zvwWEnv, td *zvwRToolDir, r *mrand.Rand, op string, remote bool) (zvwRLabel, string) {
+func zvwToolCertOp(env *zvwWEnv, td *zvwRToolDir, r *mrand.Rand, op string, remote bool, force int) (zvwRLabel, string) {
 	srv := &server{ShimAgent: env.shim, pivtoolpath: td.path, remote: remote}
 	slot := zvwWSlots[r.Intn(7)] // two hex digits
 	if r.Intn(4) == 0 {
@@ -1049,7 +1211,11 @@ func zvwToolCertOp(env *zvwWEnv, td *zvwRToolDir, r *mrand.Rand, op string, remo
 	}
 	var out []byte
 	kind := []string{"pem", "pem-trailing-text", "garbage", "empty", "two-pem"}[r.Intn(5)]
-	crt := zvwX509Pool()[r.Intn(len(zvwX509Pool()))]
+	ci := r.Intn(len(zvwX509Pool()))
+	if force >= 0 { // exported: the tool prints this certificate, for a well-formed slot name
+		kind, ci, slot = "pem", force%len(zvwX509Pool()), zvwWSlots[force%7]
+	}
+	crt := zvwX509Pool()[ci]
 	p := pem.EncodeToMemory(&pem.Block{Type: "CERTIFICATE", Bytes: crt.Raw})
 	switch kind {
 	case "pem":
@@ -1064,7 +1230,7 @@ func zvwToolCertOp(env *zvwWEnv, td *zvwRToolDir, r *mrand.Rand, op string, remo
 		out = append(append([]byte{}, p...), pem.EncodeToMemory(&pem.Block{Type: "CERTIFICATE", Bytes: zvwX509Pool()[0].Raw})...)
 	}
 	exit := 0
-	if r.Intn(4) == 0 {
+	if r.Intn(4) == 0 && force < 0 {
 		exit = 1 + r.Intn(3)
 	}
 	lab := zvwRLabel{Op: op, Mode: "tool", Method: map[string]string{"readslot": "ReadSlot", "attestslot": "AttestSlot"}[op], Ncalls: 1,
@@ -1111,7 +1277,10 @@ func zvwToolCertOp(env *zvwWEnv, td *zvwRToolDir, r *mrand.Rand, op string, remo
 	if derr == nil && (dc == nil || !bytes.Equal(dc.Raw, crt.Raw)) {
 		lab.Reseq = false // the agent itself must return the certificate the tool printed first
 	}
-	return lab, fmt.Sprintf("%s-slot%s", kind, hex.EncodeToString([]byte(slot)))
+	if kind == "pem" || kind == "two-pem" {
+		lab.Shape = "toolpem" // the tool printed certificates a served agent can hold (and nothing else)
+	}
+	return lab, fmt.Sprintf("%s-%s-slot%s", kind, zvwRCertTags[ci], hex.EncodeToString([]byte(slot)))
 }
 
 // ---------------------------------------------------------------------------------------------
@@ -1332,8 +1501,8 @@ func TestVerifRpc(t *testing.T) {
 		if (plan.Cases[i].Op == "ahc_s" || plan.Cases[i].Op == "ahc_l") && reps < len(zvwRKinds) {
 			reps = len(zvwRKinds) // every key type
 		}
-		if op := plan.Cases[i].Op; (op == "readslot" || op == "attestslot") && reps < 4+len(zvwBoundSizes) {
-			reps = 4 + len(zvwBoundSizes) // every result shape, every boundary size of the response
+		if op := plan.Cases[i].Op; (op == "readslot" || op == "attestslot") && reps < 4+len(zvwBoundSizes)+len(zvwX509Pool()) {
+			reps = 4 + len(zvwBoundSizes) + len(zvwX509Pool()) // every result shape, every boundary size of the response, every certificate class
 		}
 		if op := plan.Cases[i].Op; (op == "ahc_s" || op == "wait") && reps < len(zvwBoundSizes)+2 {
 			reps = len(zvwBoundSizes) + 2
@@ -1349,6 +1518,9 @@ func TestVerifRpc(t *testing.T) {
 	for i := range plan.Tools {
 		tl := plan.Tools[i]
 		jobs = append(jobs, zvwRGen{Kind: "tool", I: i, Seed: seed, Tool: &tl})
+	}
+	for i := 0; i < 2*len(zvwX509Pool()); i++ { // every certificate class printed by the tool, for read and for attest
+		jobs = append(jobs, zvwRGen{Kind: "toolcert", I: i, Seed: seed})
 	}
 	for i := 0; i < plan.Random; i++ {
 		jobs = append(jobs, zvwRGen{Kind: "hist", I: i, Seed: seed, HistLen: plan.HistLen})
@@ -1430,6 +1602,10 @@ func TestVerifRpc(t *testing.T) {
 					lab, vr := c.recOp(g.Case.Op, g.Case.A)
 					c.pair.close()
 					emit(g, fmt.Sprintf("c%d_%d", g.I, g.R), []step{{lab, vr, ""}}, "")
+				case "toolcert":
+					r := verifh.NewRand("rpc-toolcert", int64(g.I))
+					lab, vr := zvwToolCertOp(getEnv(), td, r, []string{"readslot", "attestslot"}[g.I%2], false, g.I/2)
+					emit(g, fmt.Sprintf("tc%d", g.I), []step{{lab, vr, ""}}, "")
 				case "tool":
 					var parts []string
 					r := verifh.NewRand("rpc-tool", int64(g.I))
@@ -1521,10 +1697,10 @@ func TestVerifRpc(t *testing.T) {
 									steps = append(steps, step{x.lab, x.vr, ""})
 								}
 							case 1:
-								lab, vr := zvwToolCertOp(getEnv(), td, r, "readslot", remote)
+								lab, vr := zvwToolCertOp(getEnv(), td, r, "readslot", remote, -1)
 								steps = append(steps, step{lab, vr, ""})
 							default:
-								lab, vr := zvwToolCertOp(getEnv(), td, r, "attestslot", remote)
+								lab, vr := zvwToolCertOp(getEnv(), td, r, "attestslot", remote, -1)
 								steps = append(steps, step{lab, vr, ""})
 							}
 						}
